@@ -223,7 +223,7 @@ class StandardMonitors:
             P("new-not-strictly-above-removed", (float(new["logL"]), float(old_live[0]["logL"])))
         if not np.isfinite(new["logP"]):
             P("new-logP-not-finite", float(new["logP"]))
-        if not bool(self.model.in_bounds(new)):
+        if not bool(self.model.ref_in_bounds(new)):
             P("new-out-of-bounds", new)
         if not ulp_close(new["logL"], self.model.raw_log_likelihood(new)):
             P("new-logL-differs-from-model", (float(new["logL"]), float(self.model.raw_log_likelihood(new))))
@@ -256,7 +256,7 @@ class StandardMonitors:
             P("not-ascending", "")
         if not (np.all(np.isfinite(live["logL"])) and np.all(np.isfinite(live["logP"]))):
             P("non-finite", "")
-        if not np.all(self.model.in_bounds(live)):
+        if not np.all(self.model.ref_in_bounds(live)):
             P("out-of-bounds", "")
         if not np.all(live["it"] == 0):
             P("it-not-zero", "")
@@ -327,8 +327,8 @@ class StandardMonitors:
             P("size", (len(s), N))
         if len(s) == 0:
             return
-        if not np.all(self.model.in_bounds(s)):
-            P("out-of-bounds", int(np.sum(~self.model.in_bounds(s))))
+        if not np.all(self.model.ref_in_bounds(s)):
+            P("out-of-bounds", int(np.sum(~self.model.ref_in_bounds(s))))
         rp = self.model.raw_log_prior(s)
         if not np.all(np.isfinite(s["logP"])):
             P("non-finite-logP", int(np.sum(~np.isfinite(s["logP"]))))
